@@ -155,6 +155,50 @@ def gen_case(rng, oracle=False):
     return {'regs': regs, 'alls': alls, 'pkts': pkts, 'beh': beh}
 
 
+def gen_long_case(rng, oracle=False):
+    """Long history: 12-40 packets, a few registrations on one port, the same callbacks raising many times (far more often
+    than any small error budget), interleaved with successful calls and occasional registry operations."""
+    focus = rng.randrange(16)
+    ncb = rng.randint(1, 4)
+    pcbs = list(range(1, ncb + 1))
+    pool = []
+    for c in pcbs:
+        r = [focus, 255, 0, 0, c, 'port'] if rng.random() < 0.7 else _rand_reg(rng, focus, [c])
+        if not any(r[:5] == q[:5] for q in pool):
+            pool.append(r)
+    regs = [r[:5] for r in pool]
+    alls = [ALL_BASE] if rng.random() < 0.3 else []
+    npk = rng.randint(12, 40)
+    pkts = [((focus << 4) | (rng.randrange(4) << 2) | rng.randrange(4)) if rng.random() < 0.9 else rng.randrange(256)
+            for _ in range(npk)]
+    beh = {}
+    for c in pcbs:
+        p_raise = rng.choice([1.0, 0.5, 0.5, 0.3, 0.15, 0.0])
+        scs = []
+        for _ in range(npk + 2):
+            sc = []
+            if rng.random() < 0.06:
+                r = rng.choice(pool)
+                sc.append([rng.choice(['addh', 'remh'])] + list(r))
+            if rng.random() < p_raise:
+                sc.append(['raise'])
+            scs.append(sc)
+        beh[str(c)] = scs
+    return {'regs': regs, 'alls': alls, 'pkts': pkts, 'beh': beh}
+
+
+def long_fixed_cases():
+    """Deterministic long histories: one registration raising on every / every other / every third packet for 40 packets,
+    next to one that never raises."""
+    out = []
+    for period in (1, 2, 3):
+        scs = [[['raise']] if k % period == 0 else [] for k in range(42)]
+        out.append({'regs': [[2, 255, 0, 0, 1], [2, 255, 0, 0, 2]], 'alls': [], 'pkts': [0x2C] * 40, 'beh': {'1': scs}})
+    out.append({'regs': [[2, 255, 0, 0, 1], [2, 14, 1, 1, 2]], 'alls': [ALL_BASE], 'pkts': [0x2D, 0x3D] * 15,
+                'beh': {'1': [[['raise']]] * 32, '2': [[['raise']]] * 32}})
+    return out
+
+
 def enum_cases(depth):
     """Small-scope enumeration: registrations a,b,c(,d) on one port, each callback's first script drawn from an
     alphabet of registry operations; one or two packets."""
@@ -199,6 +243,18 @@ def _nontrivial(case, res):
     return max(per.values() or [0]) >= 2 and has_mut
 
 
+def _max_raises(case, res):
+    """Largest number of invocations of one callback whose script raises, in this run."""
+    cnt, raises = {}, {}
+    for c, n in res['log']:
+        k = cnt.get(c, 0)
+        cnt[c] = k + 1
+        scs = case['beh'].get(str(c), [])
+        if k < len(scs) and any(o[0] == 'raise' for o in scs[k]):
+            raises[c] = raises.get(c, 0) + 1
+    return max(raises.values() or [0])
+
+
 def corpus_cases():
     out = []
     for p in sorted(glob.glob(os.path.join(runner.VERIF, 'corpus', 'C07', '*.json'))):
@@ -207,9 +263,11 @@ def corpus_cases():
 
 
 def tie(ctx):
-    cases = corpus_cases() + list(enum_cases(0))
+    cases = corpus_cases() + long_fixed_cases() + list(enum_cases(0))
     for _ in range(ctx.scale(1200, 30000)):
         cases.append(gen_case(ctx.rng, oracle=ctx.rng.random() < 0.3))
+    for _ in range(ctx.scale(40, 600)):
+        cases.append(gen_long_case(ctx.rng))
     terms, exp, ress = [], [], []
     for c in cases:
         res = drv.run_case(c)
@@ -237,7 +295,7 @@ def tie(ctx):
         dis.append({'what': 'total disagreements', 'count': nd})
     seen = set()
     nontriv = 0
-    dist = {'cases': len(cases), 'dispatcher_died': 0, 'with_raise': 0, 'with_dup_regs': 0, 'invocations': 0,
+    dist = {'cases': len(cases), 'max_raises_by_one_callback': 0, 'cases_with_10_or_more_raises_by_one_callback': 0, 'dispatcher_died': 0, 'with_raise': 0, 'with_dup_regs': 0, 'invocations': 0,
             'by_regs': {}, 'by_packets': {}}
     for c, r in zip(cases, ress):
         h = runner.sha(c)
@@ -250,6 +308,9 @@ def tie(ctx):
         dist['with_raise'] += 1 if any(o[0] == 'raise' for scs in c['beh'].values() for sc in scs for o in sc) else 0
         dist['with_dup_regs'] += 1 if len({tuple(x) for x in c['regs']}) < len(c['regs']) else 0
         dist['invocations'] += len(r['log'])
+        mr = _max_raises(c, r)
+        dist['max_raises_by_one_callback'] = max(dist['max_raises_by_one_callback'], mr)
+        dist['cases_with_10_or_more_raises_by_one_callback'] += 1 if mr >= 10 else 0
         dist['by_regs'][len(c['regs'])] = dist['by_regs'].get(len(c['regs']), 0) + 1
         dist['by_packets'][len(c['pkts'])] = dist['by_packets'].get(len(c['pkts']), 0) + 1
     return {
@@ -383,7 +444,9 @@ def check_case(case):
 def oracle(ctx, deep=False):
     fails = []
     n = 0
-    cases = corpus_cases() + list(enum_cases(1))
+    cases = corpus_cases() + long_fixed_cases() + list(enum_cases(1))
+    for _ in range(ctx.scale(400, 6000) * (3 if deep else 1)):
+        cases.append(gen_long_case(ctx.rng, oracle=True))
     for _ in range(ctx.scale(20000, 300000) * (3 if deep else 1)):
         cases.append(gen_case(ctx.rng, oracle=True))
     seen_cls = set()
